@@ -22,7 +22,9 @@ Lemma link_mapReduceWithPanicChan : C07_Gen.sk_mapReduceWithPanicChan =
    "go:executeMappers";
    "select"; "case:"; "recv:options.ctx.Done()"; "cancel"; "return";
    "case:"; "recv:panicChan.channel"; "drain"; "panic";
-   "case:"; "recv:output"; "retErr.Load"; "return"; "return"; "return"].
+   "case:"; "recv:output";
+   "select"; "case:"; "recv:panicChan.channel"; "drain"; "panic"; "default:";      (* 1af3580: Model COut *)
+   "retErr.Load"; "return"; "return"; "return"].
 Proof. reflexivity. Qed.
 
 (* executeMappers :256-296.  Model: X (XCheck = atomic.LoadInt32, XSel = select, XHold = recv source holding a pool
@@ -50,7 +52,8 @@ Lemma link_guardedWrite : C07_Gen.sk_guardedWrite =
   ["select"; "case:"; "recv:w.ctx.Done()"; "return"; "case:"; "recv:w.done"; "return"; "default:"; "send:w.channel"].
 Proof. reflexivity. Qed.
 
-(* onceChan.write :350-354.  Model: cas_panic then *PSend. *)
+(* onceChan.write.  Model: cas_panic; the send goes into the one-slot buffer (d413f58) and cannot block -
+   the buffer size itself is not visible in the skeleton: it is tied by the corpus replays (leak/hang if unbuffered). *)
 Lemma link_onceChanWrite : C07_Gen.sk_onceChanWrite = ["atomic.CompareAndSwapInt32"; "send:c.channel"].
 Proof. reflexivity. Qed.
 
@@ -69,7 +72,8 @@ Lemma link_MapReduceVoid : C07_Gen.sk_MapReduceVoid = ["reducer"; "MapReduce"; "
 Proof. reflexivity. Qed.
 Lemma link_ForEach : C07_Gen.sk_ForEach =
   ["buildOptions"; "make"; "buildSource"; "make"; "make"; "go:executeMappers";
-   "select"; "case:"; "recv:panicChan.channel"; "panic"; "case:"; "recv:collector"; "return"].
+   "select"; "case:"; "recv:panicChan.channel"; "panic"; "case:"; "recv:collector";
+   "select"; "case:"; "recv:panicChan.channel"; "panic"; "default:"; "return"].
 Proof. reflexivity. Qed.
 Lemma link_Finish : C07_Gen.sk_Finish =
   ["len"; "return"; "send:source"; "fn"; "cancel"; "len"; "WithWorkers"; "MapReduceVoid"; "return"].
